@@ -53,18 +53,39 @@ static std::string ps_tag(SPxMainSM<double>& sm)
    return "ps[" + t + "]";
 }
 
-static uint64_t run_case(const TinyLP& t, bool keepbounds, uint32_t seed, Ctx& c)
+// LPs simplified on the SAME simplifier object immediately before the LP under test (SoPlex reuses its simplifier
+// object across solves, so nothing may survive from one simplify() call to the next)
+static const char* PRIMERS[] =
+{
+   "n=2;m=1;max=0;off=0;c=1,1;lo=0,0;up=10,10;lhs=1;rhs=inf;A=1,1",
+   "n=2;m=2;max=1;off=0;c=3,2;lo=0,0;up=4,inf;lhs=-inf,-inf;rhs=6,8;A=1,1|2,1",
+   "n=3;m=2;max=0;off=0;c=100,200,50;lo=1,0,0;up=5,5,5;lhs=2,-inf;rhs=inf,9;A=1,1,1|1,-1,2",
+   "n=2;m=2;max=0;off=0;c=1,1;lo=0,0;up=inf,inf;lhs=-inf,2;rhs=1,inf;A=1,1|1,1"
+};
+static const int NPRIMERS = 4;
+static void prime(SPxMainSM<double>& sm, int primer, bool keepbounds, uint32_t seed)
+{
+   if(primer < 0) return;
+   SPxLPBase<double> lp0;
+   build_lp(lp0, TinyLP::parse(PRIMERS[primer]));
+   try { sm.simplify(lp0, 1e100, keepbounds, seed); }
+   catch(const SPxException&) {}
+}
+
+static uint64_t run_case(const TinyLP& t, bool keepbounds, uint32_t seed, Ctx& c, int primer = -1)
 {
    XLP x = t.exact();
    Classification cl = classify(x);
-   std::string cs = t.str() + "#kb=" + std::to_string((int)keepbounds) + ",seed=" + std::to_string(seed);
+   std::string cs = t.str() + "#kb=" + std::to_string((int)keepbounds) + ",seed=" + std::to_string(seed) + ",primer=" + std::to_string(primer);
    c.count("lps_x_cfg");
+   if(primer >= 0) c.count("runs_on_reused_simplifier");
    c.count(std::string("class.") + cl.name());
    SPxLPBase<double> lp;
    build_lp(lp, t);
    SPxMainSM<double> sm;
    sm.setOutstream(g_out);
    sm.setTolerances(g_tol);
+   prime(sm, primer, keepbounds, seed);
    SPxSimplifier<double>::Result res;
    try
    {
@@ -75,7 +96,7 @@ static uint64_t run_case(const TinyLP& t, bool keepbounds, uint32_t seed, Ctx& c
       c.violation("exception-in-simplify", cs, e.what());
       return 1;
    }
-   std::string tag = ps_tag(sm);
+   std::string tag = ps_tag(sm) + (primer >= 0 ? "+reused-simplifier" : "");
    c.count(std::string("result.") + RES_NAME[res]);
    for(int k = 0; k < 17; ++k) if(sm.m_stat.size() >= 17 && sm.m_stat[k] > 0) c.count(std::string("reduction.") + PS_NAME[k], sm.m_stat[k]);
    uint64_t h = 13 + res;
@@ -123,6 +144,7 @@ static uint64_t run_case(const TinyLP& t, bool keepbounds, uint32_t seed, Ctx& c
       SPxMainSM<double> sm2;
       sm2.setOutstream(g_out);
       sm2.setTolerances(g_tol);
+      prime(sm2, primer, keepbounds, seed);
       if(sm2.simplify(lp2, 1e100, keepbounds, seed) != res) { c.violation("simplify-not-deterministic", cs, ""); break; }
       int rn = red.n, rm = red.m;
       VectorReal px(rn), py(rm), ps(rm), pr(rn);
@@ -239,10 +261,10 @@ int main(int argc, char** argv)
       std::string cs = doc.substr(p, doc.find('"', p) - p);
       size_t h = cs.find('#');
       TinyLP t = TinyLP::parse(cs.substr(0, h));
-      int kb = 0, seed = 0;
-      sscanf(cs.c_str() + h, "#kb=%d,seed=%d", &kb, &seed);
+      int kb = 0, seed = 0, primer = -1;
+      sscanf(cs.c_str() + h, "#kb=%d,seed=%d,primer=%d", &kb, &seed, &primer);
       mallopt(M_PERTURB, 85);
-      return replay_case([&](Ctx & c) { run_case(t, kb != 0, (uint32_t)seed, c); });
+      return replay_case([&](Ctx & c) { run_case(t, kb != 0, (uint32_t)seed, c, primer); });
    }
    bool thorough = args.tier == "thorough";
    Report rep(args, "exploration", thorough ? 3000 : 400);
@@ -274,8 +296,11 @@ int main(int argc, char** argv)
       if(!fs.get(idx, t)) return 0;
       uint64_t h = 1;
       for(uint64_t k = 0; k < per; ++k) h = h * 31 + run_case(t, (k & 1) != 0, (uint32_t)(k >> 1), c);
+      // the same LP on a simplifier object that has just simplified another LP (quick: one primer per LP, thorough: all)
+      for(int pr = 0; pr < NPRIMERS; ++pr)
+         if(thorough || pr == int(idx % NPRIMERS)) h = h * 31 + run_case(t, (idx & 4) != 0, 0, c, pr);
       return h;
-   }, [&](uint64_t idx, uint64_t) { TinyLP t; fs.get(idx, t); return t.str() + "#kb=0,seed=0"; }, o);
+   }, [&](uint64_t idx, uint64_t) { TinyLP t; fs.get(idx, t); return t.str() + "#kb=0,seed=0,primer=-1"; }, o);
    rep.evaluations = rep.all.counters["lps_x_cfg"] + rep.all.counters["postsolves"];
    rep.rule = "case = (canonical tiny LP, keepbounds, seed): simplify once, then one simplify+unsimplify per optimal basic solution of the reduced LP "
               "(all of them, from exact basis enumeration); non-trivial = a case in which at least one presolve reduction fired and a postsolve was executed";
